@@ -117,6 +117,8 @@ def run_C01(tier, rnd, st, res):
         cases += [Case(bytes([a, b]), {}, 'two-bytes') for a in range(0, 256) for b in range(0, 256, 1)]
     else:
         cases += [Case(bytes([a, b]), {}, 'two-bytes') for a in range(0x7e, 0xa2) for b in (0x30, 0x3f, 0x40, 0x7e, 0x7f, 0x80, 0xfc, 0xfd)]
+        # both ends of the second Shift JIS range E040-EBBF (lead bytes EC-EF must stay byte mode: wave 10, C01f-1)
+        cases += [Case(bytes([a, b]), {}, 'two-bytes') for a in range(0xde, 0xf2) for b in (0x3f, 0x40, 0x7e, 0x7f, 0x80, 0xbf, 0xc0, 0xfc, 0xfd)]
     cases = sweep(cases, st, res, ['c01'], want_c06=False)
     finish(res, cases, 'all (version, level, mask) triples + random make() calls (text/bytes/int/multi-part, encodings, eci, micro, boost) + '
            'capacity boundaries + two-byte contents; non-trivial = symbol returned and decoded; distinct by (version, level, mask, segments, end)')
@@ -147,6 +149,24 @@ def sequence_block(tier, rnd, res, field, known_map=None, auto_mask=False, versi
                     for q in seq:
                         lines.append(f'sym id={len(lines)} m={matrix_str(q.matrix)} reqmask={kw.get("mask", "-")}')
                         info.append((content, kw))
+    if auto_mask:
+        # periodic contents: every symbol of the sequence carries the SAME segment and differs only in its Structured Append
+        # header (position) — the mask must still be chosen per symbol (wave 10, C06f-1: a mask memo keyed by the segments)
+        for rep in range(60 if tier == 'quick' else 600):
+            mode = rnd.choice((1, 2, 2, 4, 4))
+            n = rnd.randint(2, 4)
+            unit = content_for(rnd, mode, rnd.randint(1, 12))
+            content = unit * n
+            kw = dict(symbol_count=n, error=rnd.choice('lmqh'), boost_error=False)
+            try:
+                seq = segno.make_sequence(content, **kw)
+            except ValueError:
+                continue
+            res.evaluations += 1
+            for q in seq:
+                lines.append(f'sym id={len(lines)} m={matrix_str(q.matrix)} reqmask=-')
+                info.append((content, kw))
+        res.count('sequence-block:periodic', 1)
     for o, (content, kw) in zip(run_lines_parallel(JUDGE, lines), info):
         kv = parse_kv(o)
         verdict = kv.get(field, 'missing')
